@@ -54,6 +54,12 @@ pub struct Avoid {
     pub group_stall: bool,
     /// R5: no Disconnect signal is sent for a connection whose end is already under way
     pub recycled_id: bool,
+    /// R17 (not claimed either way): a persistent-session client does not UNSUBSCRIBE. The
+    /// router re-delivers unacknowledged forwards by rewinding the request of the same filter;
+    /// after unsubscribe + re-subscribe that is the NEW request, so the old messages come
+    /// again with the new subscription's QoS. MQTT wants in-flight messages re-sent, the
+    /// statements do not say under which subscription: neither outcome is asserted.
+    pub persistent_unsub: bool,
 }
 
 /// Client-side bookkeeping of one connection
@@ -713,6 +719,7 @@ impl Model {
             let s = &self.conns[serial].subs[i];
             (s.path.clone(), s.made_at, s.qos, s.filter.clone())
         };
+        let optional = self.conns[serial].subs[i].retained_optional;
         self.conns[serial].subs[i].retained_due = false;
         if self.retained_uncertain {
             return Ok(());
@@ -779,7 +786,7 @@ impl Model {
         } else {
             self.cfg.max_out as usize
         };
-        if !missing.is_empty() && required + 1 < window_free.min(90) {
+        if !missing.is_empty() && !optional && required + 1 < window_free.min(90) {
             fail!(
                 "retained:missing_on_new_subscription",
                 "new subscription {filter:?} (qos {qos}) did not receive the retained message of {missing:?}"
